@@ -361,9 +361,11 @@ def r4_walk(ctx):
     # reversed_oms
     r = repo.func(MOD, 'reversed_oms')
     # the pairing test: the test of an `if` in the search loop, or the filter of a generator handed to next(..)
-    tests = [n.test for n in walk_no_nested(r.node) if isinstance(n, ast.If) and isinstance(n.test, ast.BoolOp)] + \
+    from .common import with_new_helpers
+    scope = with_new_helpers(repo, r)          # the search may live in a helper extracted from reversed_oms
+    tests = [n.test for fn_ in scope for n in walk_no_nested(fn_.node) if isinstance(n, ast.If) and isinstance(n.test, ast.BoolOp)] + \
             [ast.BoolOp(op=ast.And(), values=list(g.ifs)) if len(g.ifs) > 1 else g.ifs[0]
-             for n in walk_no_nested(r.node) if isinstance(n, (ast.GeneratorExp, ast.ListComp)) for g in n.generators
+             for fn_ in scope for n in walk_no_nested(fn_.node) if isinstance(n, (ast.GeneratorExp, ast.ListComp)) for g in n.generators
              if g.ifs and (len(g.ifs) > 1 or isinstance(g.ifs[0], ast.BoolOp))]
     ok = False
     det = ''
